@@ -57,10 +57,23 @@ def hasStarSlash : List Nat → Bool
   | [] => false
   | c :: r => (c == 42 && r.head? == some 47) || hasStarSlash r
 
+/-- hint-aware scan of a comment body: every hint that starts inside the body (magic `\b`, 16-bit size, payload) also
+    ends inside it. Otherwise the `*/` that closes the comment for a byte-level scanner lies inside a hint payload,
+    while the JavaScript engine — which sees the text with hints removed — finds the end of the comment later. -/
+def hintsClosed : Nat → List Nat → Bool
+  | _, [] => true
+  | 0, _ :: _ => false
+  | f + 1, c :: r =>
+    if c == 8 then
+      match r with
+      | hi :: lo :: rest => if rest.length < hi * 256 + lo then false else hintsClosed f (rest.drop (hi * 256 + lo))
+      | _ => false
+    else hintsClosed f r
+
 /-- well-formedness of one item -/
 def Item.ok : Item → Bool
   | .ws c => isWsByte c
-  | .comment body => !hasStarSlash body
+  | .comment body => !hasStarSlash body && hintsClosed body.length body
   | .hint bs =>
     match bs with
     | m :: hi :: lo :: payload => m == 8 && payload.length == hi * 256 + lo
